@@ -20,7 +20,6 @@ def main():
     if a.only:
         import re
         obs = [o for o in obs if re.search(a.only, o.name)]
-    vf.workdir(a.pid)
     import meta
     m = meta.META[a.pid]
     rc = vf.main(a.pid, a.tier, obs, m["assumptions"] + ["every stub is listed in DESIGN.md section 3.5; every bound in the obligation's 'bound' field"],
